@@ -72,6 +72,10 @@ func checkC02(c *core.Ctx) {
 	c.Decide("CommitTransaction applies tx.VolumeUpdates() through UpdateVolumes, then InsertTransaction, then (only under MOVES_HISTORY=ON) InsertMoves, all on its own receiver, each error leaving the function; these three writers are called from nowhere else; CommitTransaction itself is called only by createTransaction, revertTransaction and importLog; balances are computed as input minus output in Go and SQL; the current-volumes readers read accounts_volumes on the non-PIT side; plus the C07 transaction-scoping rules (failed / dry-run writes contribute nothing) and the C01 upsert shape")
 	c.NotDecided("equality of the stored values with the fold (needs execution against Postgres)")
 	c.Trust("same as C01 and C07")
+	ruleVolumeUpdatesFlow(c)
+	// the volumes a read reports must be this ledger's: every statement (sub-queries of expands
+	// included) is ledger-scoped (shared with C19)
+	ruleScopedStatements(c)
 	ruleCommitTransactionShape(c)
 	ruleCommitWritersCallers(c)
 	ruleBalanceIsInputMinusOutput(c)
@@ -488,6 +492,7 @@ func ruleUnwindingLoop(c *core.Ctx) {
 	got := effectSigs(effs)
 	c.Check(strings.Join(got, " ") == "(Input,-,Destination) (Output,-,Source)", "FLOW/unwinding", key+":effects", pos(c, loop), strings.Join(got, " "),
 		fmt.Sprintf("unwinding effects are %v, expected (Input,-,Destination) (Output,-,Source)", got))
+	checkSidesIndependent(c, "FLOW/unwinding", key, effs)
 }
 
 func ruleSubtractPostings(c *core.Ctx) {
@@ -501,6 +506,7 @@ func ruleSubtractPostings(c *core.Ctx) {
 	got := effectSigs(effs)
 	c.Check(strings.Join(got, " ") == "(Input,-,Destination) (Output,-,Source)", "FLOW/subtract-postings", key+":effects", pos(c, d.Decl), strings.Join(got, " "),
 		fmt.Sprintf("SubtractPostings effects are %v, expected (Input,-,Destination) (Output,-,Source): preCommitVolumes = postCommitVolumes minus the transaction's own postings", got))
+	checkSidesIndependent(c, "FLOW/subtract-postings", key, effs)
 	// operates on a copy of the receiver
 	recv := d.Decl.Recv.List[0].Names[0].Name
 	onCopy := true
